@@ -248,6 +248,8 @@ impl DomainParticipantBuilder {
     };
 
     let (discovery_started_sender, discovery_started_receiver) = std::sync::mpsc::channel();
+    #[cfg(rustdds_verif)]
+    use crate::verif::hooks::thread; // simulated scheduler owns the new thread
 
     // Construct and start background thread
     let dp_clone = dp.weak_clone();
@@ -272,6 +274,8 @@ impl DomainParticipantBuilder {
     djh_sender.send(discovery_handle).unwrap_or(()); // send join handle to inner participant
 
     debug!("Waiting for discovery to start"); // blocking until discovery answers
+    #[cfg(rustdds_verif)]
+    crate::verif::hooks::drive_until_quiescent();
     match discovery_started_receiver.recv_timeout(Duration::from_secs(10)) {
       Ok(Ok(())) => {
         // normal case
@@ -912,6 +916,8 @@ impl Drop for DomainParticipantDisc {
 
     debug!("Waiting for Discovery join.");
     if let Ok(handle) = self.discovery_join_handle.try_recv() {
+      #[cfg(rustdds_verif)]
+      crate::verif::hooks::before_join(&handle);
       handle.join().unwrap();
       debug!("Joined Discovery.");
     }
@@ -963,6 +969,8 @@ impl Drop for DomainParticipantInner {
     debug!("Waiting for dp_event_loop join");
     match self.ev_loop_handle.take() {
       Some(join_handle) => {
+        #[cfg(rustdds_verif)]
+        crate::verif::hooks::before_join(&join_handle);
         join_handle
           .join()
           .unwrap_or_else(|e| warn!("Failed to join dp_event_loop: {e:?}"));
@@ -1108,6 +1116,8 @@ impl DomainParticipantInner {
 
     let (stop_poll_sender, stop_poll_receiver) = mio_channel::channel();
 
+    #[cfg(rustdds_verif)]
+    use crate::verif::hooks::thread; // simulated scheduler owns the new thread
     // Launch the background thread for DomainParticipant
     let disc_db_clone = discovery_db.clone();
     let security_plugins_clone = security_plugins_handle.clone();
@@ -1305,6 +1315,8 @@ impl DomainParticipantInner {
       mio::PollOpt::level(),
     )?;
 
+    #[cfg(rustdds_verif)]
+    use crate::verif::hooks::Instant; // simulated monotonic clock
     let find_end = Instant::now() + timeout;
     loop {
       if let Some(topic) = self.find_topic_in_discovery_db(domain_participant_weak, name)? {
